@@ -15,7 +15,7 @@ from typing import (
 
 from typing_extensions import Self
 
-from formulaic.errors import FormulaParsingError
+from formulaic.errors import FormulaParsingError, FormulaSyntaxError
 from formulaic.utils.layered_mapping import LayeredMapping
 from formulaic.utils.structured import Structured
 
@@ -331,6 +331,10 @@ class DefaultOperatorResolver(OperatorResolver):
         def nested_product_expansion(
             parents: OrderedSet[Term], nested: OrderedSet[Term]
         ) -> OrderedSet[Term]:
+            if not parents:
+                raise FormulaSyntaxError(
+                    "The parent term set of the `/` and `%in%` operators must not be empty."
+                )
             common = functools.reduce(lambda x, y: x * y, parents)
             return cast(
                 OrderedSet, parents | OrderedSet(common * term for term in nested)
